@@ -611,7 +611,7 @@ func (m c01) Run(c *fw.Ctx) {
 	if len(corpus) == 0 {
 		c.Inconclusive("no corpus record could be read")
 	}
-	N := c.Pick(1500, 12000)
+	N := c.Pick(1500, 40000)
 	maxLen := c.Pick(200, 5000)
 	maxFeat := c.Pick(6, 40)
 	var recent [][]byte
